@@ -27,7 +27,7 @@ pub fn enc_yaml(v: &Value) -> String {
     }
 }
 
-fn has_tag(v: &Value) -> bool {
+pub(crate) fn has_tag(v: &Value) -> bool {
     match v {
         Value::Tagged(_) => true,
         Value::Sequence(l) => l.iter().any(has_tag),
@@ -37,7 +37,7 @@ fn has_tag(v: &Value) -> bool {
 }
 
 /// a decimal exponent of 7+ digits somewhere in a text (the driver refuses those, see Driver/StdMeta.lean)
-fn huge_exp(v: &Value) -> bool {
+pub(crate) fn huge_exp(v: &Value) -> bool {
     fn text(s: &str) -> bool {
         let b: Vec<char> = s.chars().collect();
         for i in 0..b.len() {
@@ -100,7 +100,7 @@ fn r_diag_fm(d: &cooklang::error::SourceDiag, yaml_failed: bool) -> String {
     format!("{s}{st}({};{})", kind, d.labels.iter().map(|l| r_span(l.0)).collect::<Vec<_>>().join(","))
 }
 
-fn r_meta(map: &serde_yaml::Mapping) -> String {
+pub(crate) fn r_meta(map: &serde_yaml::Mapping) -> String {
     format!("meta=[{}]", map.iter().map(|(k, v)| format!("{}={}", enc_yaml(k), enc_yaml(v))).collect::<Vec<_>>().join(" "))
 }
 
